@@ -77,11 +77,14 @@ pub fn entrait_for_single_fn(attr: &EntraitFnAttr, input_fn: InputFn) -> syn::Re
         fn_vis,
         fn_sig,
         fn_body,
-        ..
+        raw,
     } = input_fn;
 
+    // the function is emitted as it came in, not re-printed from its parsed form
+    let original = raw.unwrap_or_else(|| quote! { #(#fn_attrs)* #fn_vis #fn_sig #fn_body });
+
     let out = quote! {
-        #(#fn_attrs)* #fn_vis #fn_sig #fn_body
+        #original
         #trait_def
         #impl_block
     };
@@ -152,7 +155,7 @@ pub fn entrait_for_mod(attr: &EntraitFnAttr, input_mod: InputMod) -> syn::Result
         vis,
         mod_token,
         ident: mod_ident,
-        items,
+        raw_body,
         ..
     } = input_mod;
 
@@ -162,7 +165,7 @@ pub fn entrait_for_mod(attr: &EntraitFnAttr, input_mod: InputMod) -> syn::Result
     Ok(quote! {
         #(#attrs)*
         #vis #mod_token #mod_ident {
-            #(#items)*
+            #raw_body
 
             #trait_def
             #impl_block
